@@ -100,6 +100,10 @@ static void run (int n, char **t)
   else if (IS ("cdiv_e") && n == 6) { cd (c, a); rd (x, a + 4); cdpe_div_e (rc, c, x); outc (rc); }
   else if (IS ("cmul_d") && n == 5) { cd (c, a); cdpe_mul_d (rc, c, dbl (a[4])); outc (rc); }
   else if (IS ("cdiv_d") && n == 5) { cd (c, a); cdpe_div_d (rc, c, dbl (a[4])); outc (rc); }
+  else if (IS ("cmul_2exp") && n == 5) { cd (c, a); cdpe_mul_2exp (rc, c, strtoul (a[4], NULL, 10)); outc (rc); }
+  else if (IS ("cdiv_2exp") && n == 5) { cd (c, a); cdpe_div_2exp (rc, c, strtoul (a[4], NULL, 10)); outc (rc); }
+  else if (IS ("cmul_eq_2exp") && n == 5) { cd (rc, a); cdpe_mul_eq_2exp (rc, strtoul (a[4], NULL, 10)); outc (rc); }
+  else if (IS ("cdiv_eq_2exp") && n == 5) { cd (rc, a); cdpe_div_eq_2exp (rc, strtoul (a[4], NULL, 10)); outc (rc); }
   else if (IS ("cpow_si") && n == 5)
     { long i = lng (a[4]); cd (c, a); if (i == LONG_MIN) { printf ("SKIP\n"); return; } cdpe_pow_si (rc, c, i); outc (rc); }
   else if (IS ("cset_d") && n == 2) { cdpe_set_d (rc, dbl (a[0]), dbl (a[1])); outc (rc); }
